@@ -26,7 +26,7 @@ PROPS = {
     },
     "C12": {
         "timeouts_not_mine": True,
-        "lean_modules": ["Props.C20b", "Props.Gen20", "Props.GenT20", "Props.Gen12", "Props.GenT12"],
+        "lean_modules": ["Props.C20b", "Props.Gen20", "Props.GenT20", "Props.Gen12", "Props.GenT12", "Props.Gen15", "Props.GenT15"],
         "groups": [{"name": "render", "quick": 3000, "thorough": 80000}, {"name": "mediaL", "quick": 600, "thorough": 20000, "workers": 12},
                    # numbers typed in the real UI (also while a media hook is running): what the hook is started with
                    {"name": "C07", "quick": 160, "thorough": 4000, "workers": 16},
@@ -299,7 +299,7 @@ PROPS = {
     },
     "C15": {
         "timeouts_not_mine": True,
-        "lean_modules": ["Props.C13s"],
+        "lean_modules": ["Props.C13s", "Props.Gen15", "Props.GenT15"],
         "groups": [{"name": "render", "quick": 2500, "thorough": 60000},
                    # documents rendered from several goroutines at once
                    {"name": "renderpar", "quick": 40, "thorough": 1500, "workers": 4}],
